@@ -533,9 +533,21 @@ impl Property for C14 {
             std::fs::write(proj.join("<std>").join("nope.asm"), format!("#d8 {}\n", SENTINEL)).unwrap();
             std::fs::write(top.join("outer").join("secret.asm"), format!("#d8 {}\n", SENTINEL)).unwrap();
             std::fs::write(top.join("secret.asm"), format!("#d8 {}\n", SENTINEL)).unwrap();
-            let mut args: Vec<String> = vec!["-q".into(), tr.root.clone()];
+            // v3: the root may be spelled `./name` (the same file; `..` must not be allowed to cancel that dot). A file
+            // named like the hostile targets then also exists INSIDE the project: a `../secret.asm` that is resolved
+            // to it instead of being rejected shows as an accepted tree
+            let dot_slash = crate::engine::gen_version() >= 3 && t.chance(1, 3);
+            if dot_slash {
+                ctx.label("real-fs:root-spelled-dot-slash");
+                // (not when a path of the tree legitimately names `secret.asm` inside the project: the model has no such file)
+                if !matches!(&model, Err(e) if e.contains("file not found")) {
+                    std::fs::write(proj.join("secret.asm"), format!("#d8 {}\n", SENTINEL)).unwrap();
+                }
+            }
+            let spell = |n: &str| if dot_slash { format!("./{}", n) } else { n.to_string() };
+            let mut args: Vec<String> = vec!["-q".into(), spell(&tr.root)];
             if let Some(r2) = &second_root {
-                args.push(r2.clone());
+                args.push(spell(r2));
             }
             args.extend(["-f".to_string(), "binary".into(), "-o".into(), "out.bin".into()]);
             let r = realbin::run(&realbin::bin_path(false), &proj, &args, &realbin::Limits::default());
@@ -552,6 +564,20 @@ impl Property for C14 {
             if let Some((c, d)) = res {
                 ctx.want_render = true;
                 ctx.render(|| tree_json(&tr));
+                // input predicate of a listed finding: the root is spelled `./name` and the model rejects the tree
+                // because a path leaves the project directory (the in-project decoy is no breach of confinement)
+                let c = if dot_slash && matches!(&model, Err(e) if e.contains("leaves the project directory")) && c.starts_with("real|invalid-tree-accepted") {
+                    "real|root-spelled-dot-slash|path-out-of-project-accepted".to_string()
+                } else if dot_slash
+                    && (c == "real|wrong-expansion" || c == "real|valid-tree-rejected")
+                    && tr.files.values().any(|f| f.entries.iter().any(|e| matches!(e, Entry::Include(p) if p.replace('\\', "/").starts_with('/') || p.contains(".."))))
+                {
+                    // same root cause: names keep the `./`, names reached through `/x` or `..` do not - one file,
+                    // two names, so #once and cycle detection see two files
+                    "real|root-spelled-dot-slash|same-file-under-two-names".to_string()
+                } else {
+                    c
+                };
                 return Verdict::fail(c, d);
             }
         }
